@@ -315,6 +315,82 @@ func checkC13(c *Ctx) {
 		}
 	}
 
+	// C13.8 "any number of reloads ... the reloads complete as well": (a) the signal handler keeps serving signals whatever
+	// a reload answered - from the ReloadSubnets call every path leads back to the receive from the signal channel, none
+	// to a return of the handler goroutine; (b) ReloadSubnets itself parks on nothing: no channel operation, select or
+	// wait (a turn-taking channel that one constructor forgot to make blocks every reload forever)
+	r.Rule("C13.8", "the SIGHUP handler outlives every reload outcome; ReloadSubnets never parks on a channel", 2)
+	{
+		n := 0
+		for _, f := range c.funcsOfPkgs("cmd/regserver", "cmd/registration-server") {
+			for _, ci := range callsIn(f, shortIs("ReloadSubnets")) {
+				in := ci.(ssa.Instruction)
+				n++
+				isRecv := func(x ssa.Instruction) bool {
+					switch y := x.(type) {
+					case *ssa.UnOp:
+						return y.Op == token.ARROW
+					case *ssa.Select:
+						return true
+					case *ssa.Next:
+						return true
+					}
+					return false
+				}
+				isExit := func(x ssa.Instruction) bool {
+					if isReturn(x) {
+						return true
+					}
+					if call, ok := x.(*ssa.Call); ok {
+						switch calleeName(&call.Call) {
+						case "os.Exit", "runtime.Goexit":
+							return true
+						}
+					}
+					_, isPanic := x.(*ssa.Panic)
+					return isPanic
+				}
+				// only meaningful when the call sits in a receive loop
+				inLoop, _ := reach(f, in, isRecv, nil, nil)
+				if !inLoop {
+					r.Unk("C13.8", fnName(f)+": signal loop around ReloadSubnets", in.Pos(), fnName(f), "no channel receive is reachable from the reload: the handler is not a loop over the signal channel")
+					continue
+				}
+				dies, w := reach(f, in, isExit, isRecv, nil)
+				if dies {
+					r.Bad("C13.8", fnName(f)+": the signal handler ends after a reload", in.Pos(), fnName(f),
+						"from the reload a return (or exit) of the signal-handling goroutine is reachable before the next receive from the signal channel: after that outcome no later SIGHUP is served, so later reloads never start and the registrar answers from the stale subnet set for the rest of its life", r.blockPath(f, w)...)
+				} else {
+					r.OK("C13.8", fnName(f)+": every path from ReloadSubnets leads back to the signal receive", in.Pos(), "no return / exit reachable before the next receive")
+				}
+			}
+		}
+		if n == 0 {
+			r.Unk("C13.8", "SIGHUP handler of the registration server", token.NoPos, "", "no call of ReloadSubnets found in the registration server's main package")
+		}
+		if f := c.fn("C13.8", "pkg/regserver/regprocessor", "RegProcessor", "ReloadSubnets"); f != nil {
+			var ops []string
+			pos := f.Pos()
+			eachInstrDeep(f, 2, func(in ssa.Instruction, d deepCtx) {
+				if op := parksOn(in); op != "" {
+					if len(ops) == 0 {
+						pos = in.Pos()
+					}
+					ops = append(ops, op)
+				}
+			})
+			for _, a := range f.AnonFuncs {
+				eachInstr(a, func(in ssa.Instruction) {
+					if op := parksOn(in); op != "" {
+						ops = append(ops, op+" (in a deferred / nested function)")
+					}
+				})
+			}
+			r.Check(len(ops) == 0, "C13.8", "ReloadSubnets: no channel operation, select or wait", pos, fnName(f), "only the selector mutex is waited for",
+				"ReloadSubnets can park on "+firstN(strings.Join(ops, "; "), 100)+": a channel that is nil (a constructor that does not make it) or full blocks the reload - and the signal handler behind it - forever, while requests keep being answered from the old set")
+		}
+	}
+
 	// C13.7 requests run their selections on the snapshot with no lock held: selection only reads the selector (a lazily
 	// filled memo inside the loaded configuration is written by the first requests after every reload, concurrently)
 	checkSelectionPurity(c, "C13.7", "pkg/phantoms")
